@@ -71,16 +71,21 @@ def size(orc: Any, u: Any) -> Fraction:
 
 
 def replay(op: str, uc: str, vc: str, n: int, xv: Fraction, yv: Fraction, sU: Fraction,
-           sV: Fraction, sR_code: str) -> str:
+           sV: Fraction, sR_code: str, kind: str = "float") -> str:
     expr = {"add": "a + b", "sub": "a - b", "mul": "a * b", "div": "a / b", "pow": f"a ** {n}",
             "eq": "a == b", "lt": "a < b"}[op]
     return families.REPLAY_IMPORTS + f"""
+from decimal import Decimal
 U, V = {uc}, {vc}
 x, y = {float(xv)!r}, {float(yv)!r}
 sU, sV = {float(sU)!r}, {float(sV)!r}   # unit sizes from the declarations (independent of the library)
+A, B = x * sU, y * sV
+if {kind!r} == 'dec':      # the obligation was about Decimal magnitudes
+    x, y = Decimal(repr(x)), Decimal(repr(y))
+elif {kind!r} == 'int':
+    x, y = int(x), int(y); A, B = x * sU, y * sV
 a, b = x * U, y * V
 r = {expr}
-A, B = x * sU, y * sV
 print(a, b, '->', r)
 op = {op!r}
 if op in ('eq', 'lt'):
@@ -109,13 +114,17 @@ def worker(task: Tuple) -> Dict[str, Any]:
     acc = work.Acc()
     absz = lambda e: z3.If(e >= 0, e, -e)
     with symnum.Shims():
-        for (uc, vc, same_dim) in items:
+        for (uc, vc, same_dim, *rest) in items:
+            kind = rest[0] if rest else "float"
             U, V = eval(uc, n_), eval(vc, n_)
             sU, sV = size(orc, U), size(orc, V)
-            label = f"{families.show(U)},{families.show(V)}"
+            label = f"{families.show(U)},{families.show(V)}" + ("" if kind == "float" else f"/{kind}")
             ops = ["mul", "div"] + [f"pow{n}" for n in POWERS]
             if same_dim:
                 ops += ["add", "sub", "eq", "lt"]
+            if kind != "float":
+                # the other numeric types: the operations that bring both operands to one unit
+                ops = ["add", "sub", "eq", "lt"]
             for op in ops:
                 n = int(op[3:]) if op.startswith("pow") else 0
                 opn = "pow" if op.startswith("pow") else op
@@ -123,14 +132,15 @@ def worker(task: Tuple) -> Dict[str, Any]:
                 def fn() -> Any:
                     from measured import Quantity
 
-                    a, b = Quantity(mk("float", X), U), Quantity(mk("float", Y), V)
+                    a, b = Quantity(mk(kind, XK), U), Quantity(mk(kind, YK), V)
                     return {"add": lambda: a + b, "sub": lambda: a - b, "mul": lambda: a * b,
                             "div": lambda: a / b, "pow": lambda: a ** n, "eq": lambda: a == b,
                             "lt": lambda: a < b}[opn]()
 
+                XK, YK = (X, Y) if kind != "int" else (z3.Int("xi"), z3.Int("yi"))
                 ex = explore(fn, max_paths=16)
                 acc.explored(ex)
-                A, B = X * symnum.q(sU), Y * symnum.q(sV)
+                A, B = real(XK) * symnum.q(sU), real(YK) * symnum.q(sV)
                 for i, p in enumerate(ex.paths):
                     key = (label, op, i)
                     name = f"{label}:{op}#p{i}"
@@ -181,8 +191,8 @@ def worker(task: Tuple) -> Dict[str, Any]:
                         goal = absz(got - want) <= tol * scale
 
                     def rp(m: Dict[str, Fraction]) -> str:
-                        return replay(opn, uc, vc, n, m.get("x", Fraction(1)), m.get("y", Fraction(1)),
-                                      sU, sV, sR_code)
+                        return replay(opn, uc, vc, n, m.get(str(XK), Fraction(1)), m.get(str(YK), Fraction(1)),
+                                      sU, sV, sR_code, kind)
 
                     r, _ = acc.P.check(p.cond, z3.Not(goal))
                     if r == "unsat":
@@ -193,14 +203,15 @@ def worker(task: Tuple) -> Dict[str, Any]:
                         # prefer a counterexample far from the tie zone, so that the float
                         # replay sits on the same side as the exact model
                         far = absz(A - B) > symnum.q(Fraction(1, 100)) * (absz(A) + absz(B))
-                        m = acc.P.shaped_model([p.cond, z3.Not(goal), far], [X, Y]) or \
-                            acc.P.shaped_model([p.cond, z3.Not(goal)], [X, Y])
+                        m = acc.P.shaped_model([p.cond, z3.Not(goal), far], [XK, YK]) or \
+                            acc.P.shaped_model([p.cond, z3.Not(goal)], [XK, YK])
                         if m is None:
                             acc.ob("unknown", name + "(real-model-only)", key)
                             continue
                         acc.ob("sat", name, key)
                         acc.out["viol"].append((f"C06:{op}:{label}", f"{op} on {label}: SI value of the "
-                                                f"result differs from the operation on SI values", rp(m)))
+                                                f"result differs from the operation on SI values", rp(m)) +
+                                               (("soft",) if kind != "float" else ()))
         acc.sample({"pair": items[0][:2], "ops": "mul div pow[-3..3] (+ add sub eq lt when commensurable)"})
     return acc.finish()
 
@@ -307,6 +318,12 @@ def tasks_for(tier: str) -> List[Tuple]:
         items = items[::2]
     # products / quotients in which every factor cancels while the prefixes do not
     items += [(u, v, False) for u, v in RECIPROCAL]
+    # Decimal and int magnitudes on the spellings that differ by a prefix (SI, IEC, mixed) or a unit
+    for g in (GROUPS[3], GROUPS[0][:3], GROUPS[1]):
+        for u, v in itertools.permutations(g, 2):
+            items.append((u, v, True, "dec"))
+        for u, v in list(itertools.permutations(g, 2))[::3]:
+            items.append((u, v, True, "int"))
     return [ch for ch in par.chunks(items, 32)]
 
 
